@@ -102,6 +102,8 @@ function parse_root_bracket_level_text_spans(select_expression) {
     }
     text_spans.push(select_expression.substring(last_pos, select_expression.length));
     text_spans = text_spans.map(span => span.trim());
+    if (text_spans.length > 1 && text_spans[text_spans.length - 1] == '')
+        text_spans.pop(); // A trailing comma does not add an element to the array literal the select list becomes
     return text_spans;
 }
 
